@@ -152,6 +152,36 @@ def main(seed, n):
             p.join(raise_on_error=False)
         except Exception:   # noqa
             pass
+    if len(sys.argv) > 3 and sys.argv[3] == "findings":
+        # a burst larger than the queue (max 1024) from a child that exits at once, and a consumer that starts reading when the
+        # child is gone (please_stop is set at the first end-of-file) and then reads without pause: the reader, parked on the full
+        # queue at that moment, must deliver the rest — nothing is abandoned, the consumer is never a second late
+        nl = 2000
+        p = Process("c17-burst", [sys.executable, "-c", "import sys; sys.stdout.write(''.join('line %%d\\n' %% i for i in range(%d)))" % nl],
+                    timeout=30, startup_timeout=30)
+        t0 = time.time()
+        while not p.please_stop and time.time() - t0 < 20:
+            time.sleep(0.005)
+        got = []
+        t1 = time.time()
+        last, worst_gap = t1, 0.0
+        while not p.stopped and time.time() - t1 < 20:
+            got.extend(l for l in p.stdout.pop_all() if l is not PLEASE_STOP)
+            time.sleep(0.002)
+            now = time.time()
+            worst_gap, last = max(worst_gap, now - last), now
+        got.extend(l for l in p.stdout.pop_all() if l is not PLEASE_STOP)
+        out["cases"] += 1
+        bump("burst-prompt-consumer")
+        if worst_gap > 0.4:
+            bump("burst-consumer-starved")      # this consumer did pause (machine load): the run says nothing
+        elif got != ["line %d" % i for i in range(nl)]:
+            out["viol"].append("C17: a child wrote %d lines in one burst and exited 0; a consumer that started reading when the child "
+                               "had gone and never paused received %d of them (last: %s)" % (nl, len(got), json.dumps(got[-1:])))
+        try:
+            p.join(raise_on_error=False)
+        except Exception:   # noqa
+            pass
     print("M8REAL " + json.dumps(out, default=str))
     sys.stdout.flush()
     try:
